@@ -20,6 +20,8 @@ pub(crate) struct FrequencySketch {
     table_mask: u32,
     table: Box<[u64]>,
     size: u32,
+    #[cfg(mini_moka_verif)]
+    verif_resets: u32,
 }
 
 // A mixture of seeds from FNV-1a, CityHash, and Murmur3. (Taken from Caffeine)
@@ -174,6 +176,10 @@ impl FrequencySketch {
             *entry = (*entry >> 1) & RESET_MASK;
         }
         self.size = (self.size >> 1) - (count >> 2);
+        #[cfg(mini_moka_verif)]
+        {
+            self.verif_resets += 1;
+        }
     }
 
     /// Returns the table index for the counter at the specified depth.
@@ -182,6 +188,35 @@ impl FrequencySketch {
         let mut hash = hash.wrapping_add(SEED[i]).wrapping_mul(SEED[i]);
         hash = hash.wrapping_add(hash >> 32);
         (hash & (self.table_mask as u64)) as usize
+    }
+}
+
+#[cfg(mini_moka_verif)]
+impl FrequencySketch {
+    pub(crate) fn verif_state(&self, enabled: bool) -> crate::verif::SketchState {
+        crate::verif::SketchState {
+            enabled,
+            size: self.size,
+            sample_size: self.sample_size,
+            table_len: self.table.len(),
+            resets: self.verif_resets,
+        }
+    }
+
+    pub(crate) fn verif_positions(&self, hash: u64) -> [(usize, u8); 4] {
+        let start = ((hash & 3) << 2) as u8;
+        let mut r = [(0usize, 0u8); 4];
+        if self.table.is_empty() {
+            return r;
+        }
+        for i in 0..4u8 {
+            r[i as usize] = (self.index_of(hash, i), start + i);
+        }
+        r
+    }
+
+    pub(crate) fn verif_table(&self) -> Vec<u64> {
+        self.table.to_vec()
     }
 }
 
